@@ -18,7 +18,12 @@ echo "tests with change: $(cd $wt && PYTHONPATH=$wt /venv/bin/python -m pytest -
 if [ "$demo" != "-" ]; then
   (cd $wt && PYTHONPATH=$wt /venv/bin/python $demo > /tmp/demo_out_$id.txt 2>&1; echo "demo with change: exit $?"; tail -2 /tmp/demo_out_$id.txt; rm -f /tmp/demo_out_$id.txt)
 fi
-mkdir -p $vc && rsync -a --exclude .git --exclude replays /verif/ $vc/
+if [ "${TRIAL_FROM_HEAD:-0}" = 1 ]; then
+  # committed state of /verif only (builders may be editing the working tree) + the build cache
+  mkdir -p $vc && git -C /verif archive HEAD | tar -x -C $vc && rsync -a /verif/lean/.lake $vc/lean/
+else
+  mkdir -p $vc && rsync -a --exclude .git --exclude replays /verif/ $vc/
+fi
 for p in "$@"; do
   echo "=== $p (quick) against the mutated tree"
   (cd $vc && IBICUS_REPO=$wt timeout 1800 ./check $p --tier quick > $vc/out_$p.txt 2>&1; echo $? > $vc/rc_$p.txt)
